@@ -100,6 +100,15 @@ func genC13(seed uint64, run int, tier string) Scenario {
 			}
 		}
 		for j := 0; j < n; j++ {
+			if j > 0 && r.IntN(6) == 0 {
+				// the same input again (same reply, same verdict): still its own member
+				k := r.IntN(j)
+				op.Cmds = append(op.Cmds, op.Cmds[k])
+				op.Lines = append(op.Lines, op.Lines[k])
+				op.WantFail = append(op.WantFail, op.WantFail[k])
+
+				continue
+			}
 			c := g.cmd(pick(r, "show", "set"))
 			var toks []peer.Tok
 			var lines []string
@@ -132,6 +141,15 @@ func genC13(seed uint64, run int, tier string) Scenario {
 			op.Lines = append(op.Lines, lines)
 			op.WantFail = append(op.WantFail, fails[j])
 		}
+		// options of other layers (a channel-level timeout, a privilege level) ride along in any
+		// order: they must not disturb the ones this property is about
+		if r.IntN(2) == 0 {
+			op.TimeoutUS = sc.TimeoutOpsUS
+		}
+		if strings.HasPrefix(op.Kind, "netconfig") && r.IntN(2) == 0 {
+			op.Priv = "configuration"
+		}
+		op.OptSeed = r.Uint64()
 		if n == 1 && (op.Kind == "send" || op.Kind == "netsend") {
 			op.Cmd = op.Cmds[0]
 			op.Cmds = nil
@@ -200,11 +218,13 @@ func runC13(env *Env, s Scenario) {
 		// device side: exactly the first `sent` commands arrived (privilege navigation lines and
 		// bare returns aside), nothing after
 		var own []string
+		isCmd := map[string]bool{}
+		for _, c := range cmds {
+			isCmd[c] = true
+		}
 		for _, l := range got {
-			for _, c := range cmds {
-				if l == c {
-					own = append(own, l)
-				}
+			if isCmd[l] {
+				own = append(own, l)
 			}
 		}
 		if strings.Join(own, "\x00") != strings.Join(cmds[:sent], "\x00") {
